@@ -15,7 +15,7 @@ OPT_TEXT = st.one_of(st.none(), st.just(''), TEXT, NASTY)
 
 
 @st.composite
-def payload(draw, max_sigs=12, allow_big=False, min_sigs=1, allow_medium=False):
+def payload(draw, max_sigs=12, allow_big=False, min_sigs=1, allow_medium=False, medium_rate=40, big_rate=8):
 	k = draw(st.one_of(st.integers(1, 32), st.sampled_from([4, 5, 8, 9, 16, 17, 31, 32]), st.integers(1, 12)))
 	prefix = draw(st.text(alphabet='ACGT', min_size=1, max_size=8))
 	n = draw(st.integers(min_sigs, max_sigs))
@@ -31,10 +31,10 @@ def payload(draw, max_sigs=12, allow_big=False, min_sigs=1, allow_medium=False):
 		else:
 			ln = draw(st.one_of(st.integers(0, 6), st.integers(0, 60)))
 		sigs.append([ln, draw(st.integers(0, 2 ** 20)), draw(st.sampled_from(['rand', 'rand', 'top', 'bottom']))])
-	if allow_big and draw(st.integers(0, 7)) == 7:
+	if allow_big and draw(st.integers(0, big_rate - 1)) == big_rate - 1:
 		sigs = [[draw(st.integers(100000, 300000)), draw(st.integers(0, 99)), 'rand'] for _ in range(draw(st.integers(2, 6)))]
 		k = max(k, 12)
-	if allow_medium and draw(st.integers(0, 39)) == 39:
+	if allow_medium and draw(st.integers(0, medium_rate - 1)) == medium_rate - 1:
 		# more values than any plausible read-ahead / write buffer (64 Ki elements), still cheap to build
 		sigs = [[draw(st.integers(15000, 40000)), draw(st.integers(0, 99)), 'rand'] for _ in range(draw(st.integers(3, 6)))]
 		k = max(k, 12)
@@ -78,6 +78,18 @@ def build_arrays(np, p):
 	for ln, seed, where in p['sigs']:
 		rnd = random.Random(seed * 1000003 + ln)
 		ln = min(ln, nk)
+		if ln > 2000:
+			# large signatures: NumPy generator seeded from the case (a Python loop over millions of values dominated the run time)
+			rng = np.random.default_rng(seed * 1000003 + ln)
+			span = nk if where == 'rand' else max(ln * 4, 16)
+			span = min(span, nk)
+			draw_n = int(ln * 1.3) + 16
+			raw = np.unique(rng.integers(0, span, size=draw_n, dtype=np.uint64)) if span > ln * 2 else rng.permutation(span).astype(np.uint64)
+			raw = raw[:ln] if span > ln * 2 else np.sort(raw[:ln])
+			if where == 'top':
+				raw = np.sort(np.uint64(nk - 1) - raw)
+			arrays.append(raw.astype(dt))
+			continue
 		if nk <= 10 ** 6:
 			vals = set(rnd.sample(range(nk), ln))
 		else:
